@@ -611,8 +611,12 @@ def literal_eval_extended(item):
         raise
 
 
-def time_to_seconds(t:datetime.time) -> int:
-    return (t.hour * 60 + t.minute) * 60 + t.second
+def time_to_seconds(t:datetime.time) -> Union[int, float]:
+    seconds = (t.hour * 60 + t.minute) * 60 + t.second
+    if t.microsecond:
+        # times that differ only in their microseconds are different times
+        return seconds + t.microsecond / 1000000
+    return seconds
 
 
 def datetime_normalize(
